@@ -142,4 +142,25 @@ MUTANTS = [
     M("c07-cpu-int-mm-inner-one-again", "C07", "break", [(MM, "        # torch._int_mm returns wrong sums on CPU when the inner dimension is one\n        and in_features > 1\n", "")], "C07.R5"),
     M("c07-refactor-cpu-int-mm-inner-ge2", "C07", "refactor", [(MM, "        and in_features > 1\n", "        and in_features >= 2\n")]),
     M("c07-refactor-cpu-int8pack-mod32", "C07", "refactor", [(MM, "        and in_features % 16 == 0\n", "        and in_features % 32 == 0\n")]),
+    # ---- round 6: in-place stores of the calibrated scales through a setter procedure keep the VALUES (C12 / C03 / C09 silent) and break C11 / are the store
+    M("c12-refactor-scales-stored-in-place", "C12", "refactor", [(CAL, "def absmax_scale(base", "def _set_scale(scale, new_scale):\n    with torch.no_grad():\n        scale.copy_(new_scale)\n\n\ndef absmax_scale(base"),
+     (CAL, "                module.input_scale = torch.max(input._scale).detach()", "                _set_scale(module.input_scale, torch.max(input._scale))"),
+     (CAL, "                module.input_scale = _updated_scale(module.input_scale, input_scale, self.momentum).detach()", "                _set_scale(module.input_scale, _updated_scale(module.input_scale, input_scale, self.momentum))"),
+     (CAL, "            module.output_scale = _updated_scale(module.output_scale, output_scale, self.momentum).detach()", "            _set_scale(module.output_scale, _updated_scale(module.output_scale, output_scale, self.momentum))")]),
+    M("c03-refactor-scales-stored-in-place", "C03", "refactor", [(CAL, "def absmax_scale(base", "def _set_scale(scale, new_scale):\n    with torch.no_grad():\n        scale.copy_(new_scale)\n\n\ndef absmax_scale(base"),
+     (CAL, "                module.input_scale = torch.max(input._scale).detach()", "                _set_scale(module.input_scale, torch.max(input._scale))"),
+     (CAL, "                module.input_scale = _updated_scale(module.input_scale, input_scale, self.momentum).detach()", "                _set_scale(module.input_scale, _updated_scale(module.input_scale, input_scale, self.momentum))"),
+     (CAL, "            module.output_scale = _updated_scale(module.output_scale, output_scale, self.momentum).detach()", "            _set_scale(module.output_scale, _updated_scale(module.output_scale, output_scale, self.momentum))")]),
+    M("c09-refactor-scales-stored-in-place", "C09", "refactor", [(CAL, "def absmax_scale(base", "def _set_scale(scale, new_scale):\n    with torch.no_grad():\n        scale.copy_(new_scale)\n\n\ndef absmax_scale(base"),
+     (CAL, "                module.input_scale = torch.max(input._scale).detach()", "                _set_scale(module.input_scale, torch.max(input._scale))"),
+     (CAL, "                module.input_scale = _updated_scale(module.input_scale, input_scale, self.momentum).detach()", "                _set_scale(module.input_scale, _updated_scale(module.input_scale, input_scale, self.momentum))"),
+     (CAL, "            module.output_scale = _updated_scale(module.output_scale, output_scale, self.momentum).detach()", "            _set_scale(module.output_scale, _updated_scale(module.output_scale, output_scale, self.momentum))")]),
+    M("c11-scales-stored-in-place", "C11", "break", [(CAL, "def absmax_scale(base", "def _set_scale(scale, new_scale):\n    with torch.no_grad():\n        scale.copy_(new_scale)\n\n\ndef absmax_scale(base"),
+     (CAL, "                module.input_scale = torch.max(input._scale).detach()", "                _set_scale(module.input_scale, torch.max(input._scale))"),
+     (CAL, "                module.input_scale = _updated_scale(module.input_scale, input_scale, self.momentum).detach()", "                _set_scale(module.input_scale, _updated_scale(module.input_scale, input_scale, self.momentum))"),
+     (CAL, "            module.output_scale = _updated_scale(module.output_scale, output_scale, self.momentum).detach()", "            _set_scale(module.output_scale, _updated_scale(module.output_scale, output_scale, self.momentum))")], "C11.R10"),
+    M("c11-scale-buffer-mul-in-place", "C11", "break", [(CAL, "                module.input_scale = torch.max(input._scale).detach()", "                module.input_scale.mul_(0).add_(torch.max(input._scale).detach())")], "C11.R10"),
+    M("c06-refactor-optimize-keywords", "C06", "refactor", [("optimum/quanto/tensor/qbits/qbits.py", "            self.size(),\n            self.stride(),\n            data,\n            self._scale,\n            self._zeropoint,\n            self.requires_grad,", "            size=self.size(),\n            stride=self.stride(),\n            data=data,\n            scale=self._scale,\n            zeropoint=self._zeropoint,\n            requires_grad=self.requires_grad,")]),
+    M("c06-optimize-size-from-payload", "C06", "break", [("optimum/quanto/tensor/qbits/qbits.py", "            self.size(),\n            self.stride(),\n            data,", "            data.size(),\n            self.stride(),\n            data,")], "C06.R10"),
+    M("c14-refactor-affine-size-one-remapped", "C14", "refactor", [("optimum/quanto/tensor/qweight.py", "    scale, zeropoint = optimizer(t, qtype.bits, axis, group_size)\n", "    if t.shape[axis] == 1:\n        # a single index along the axis: one group spanning the tensor is the same quantization\n        pass\n    scale, zeropoint = optimizer(t, qtype.bits, axis, group_size)\n")]),
 ]
